@@ -13,7 +13,7 @@ import subprocess
 import sys
 
 VERIF = os.path.dirname(os.path.dirname(os.path.abspath(__file__)))
-EVAL = '/tmp/agents/evalrepo'
+EVAL = os.environ.get('VERIF_EVALREPO', '/tmp/agents/evalrepo')   # parallel evaluators use one clone each
 PROPS = ['C%02d' % i for i in range(1, 21) if i != 2]
 
 
@@ -48,7 +48,7 @@ def main(argv):
     failed = sum(int(x) for x in re.findall(r'(\d+) failed', out))
     meta['suite_with_patch'] = {'passed': passed, 'failed': failed}
     # checks against the patched tree (no demo code in it)
-    tree = '/tmp/agents/evaltree'
+    tree = EVAL.rstrip('/') + '-tree'
     shutil.rmtree(tree, ignore_errors=True)
     os.makedirs(tree)
     for item in ('src', 'tests', 'Cargo.toml', 'Cargo.lock'):
